@@ -20,6 +20,8 @@ import (
 	"context"
 	"fmt"
 
+	"github.com/cloudwego/eino/internal"
+	"github.com/cloudwego/eino/internal/generic"
 	"github.com/cloudwego/eino/schema"
 )
 
@@ -227,6 +229,16 @@ func ToList[I any](opts ...LambdaOpt) *Lambda {
 	}
 
 	f := func(ctx context.Context, inputS *schema.StreamReader[I], opts_ ...unreachableOption) (outputS *schema.StreamReader[[]I], err error) {
+		if internal.GetConcatFunc(generic.TypeOf[[]I]()) == nil {
+			// one-element lists of a type without a concat function could never be put together again
+			// downstream: put the chunks together here and hand on one list, as the Invoke form does
+			in, err := concatStreamReader(inputS)
+			if err != nil {
+				return nil, err
+			}
+			return schema.StreamReaderFromArray([][]I{{in}}), nil
+		}
+
 		return schema.StreamReaderWithConvert(inputS, func(i I) ([]I, error) {
 			return []I{i}, nil
 		}), nil
